@@ -75,7 +75,7 @@ class Driver(Device, metaclass=DriverMeta):
         groups: Dict[str, GroupDefinition] = {}
         for base in cls.__bases__:
             if issubclass(base, Driver) or base is Driver:
-                groups = {**groups, **cast(Type[Driver], base)._group_definitions}
+                groups = {**groups, **cast(Type[Driver], base)._all_group_definitions()}
         for k, v in cls._group_definitions.items():
             if isinstance(v, GroupDefinition):
                 groups[k] = v
